@@ -271,6 +271,56 @@ fn ob_c09_var_upper_bound_product(ka: u8, a1: usize, a2: usize, lo: u8, hi: u8) 
     }
 }
 
+//@ob C10.natural.opened-bounds
+//@ props: C10 C09 C05
+//@ kind: complete
+//@ fns: src/token/variance/natural.rs::BoundedVariantRange::opened_upper_bound src/token/variance/natural.rs::BoundedVariantRange::opened_lower_bound src/token/variance/natural.rs::BoundedVariantRange::lower src/token/variance/natural.rs::BoundedVariantRange::upper src/token/variance/natural.rs::VariantRange::lower src/token/variance/natural.rs::VariantRange::upper src/token/variance/natural.rs::NonZeroLower::into_usize src/token/variance/natural.rs::NonZeroUpper::into_usize
+//@ pre: any well-formed bounded range r (all of usize), any natural x
+//@ post: opened_upper_bound(r) denotes exactly [lower(r), inf) -- what a bounded term plus an unbounded one can reach --, opened_lower_bound(r) exactly [0, upper(r)]; lower() / upper() read back the bounds gamma(r) is defined by
+fn ob_c10_natural_opened_bounds(k: u8, a: usize, b: usize, x: usize) {
+    vassume!(k <= 2 && valid_bvr(k, a, b));
+    let r = mk_bvr(k, a, b);
+    vcover!(k == 2);
+    vcover!(k == 1);
+    let lo = r.lower().into_usize();
+    let hi = r.upper().into_usize();
+    assert!(mem_bvr(&r, x as u128) == (x >= lo && hi.map_or(true, |h| x <= h)), "C10 lower() / upper() read back the bounds of the range");
+    let opened = r.opened_upper_bound();
+    assert!(mem_vr(&opened, x as u128) == (x >= lo), "C10 opening the upper bound keeps exactly the lower bound");
+    assert!(opened.upper().into_usize().is_none() && opened.lower().into_usize() == lo, "C09 an opened upper bound is open");
+    let opened = r.opened_lower_bound();
+    assert!(mem_vr(&opened, x as u128) == hi.map_or(true, |h| x <= h), "C10 opening the lower bound keeps exactly the upper bound");
+}
+
+//@ob C10.natural.union
+//@ props: C10 C09 C05
+//@ kind: complete
+//@ fns: src/token/variance/natural.rs::BoundedVariantRange::union src/token/variance/natural.rs::NaturalRange::by_lower_and_upper_with src/token/variance/natural.rs::BoundedVariantRange::disjunction src/token/variance/natural.rs::Depth::disjunction<BoundedVariantRange>
+//@ pre: a well-formed bounded range r and a second operand: another bounded range or an invariant n (all of usize), any natural x
+//@ post: the union contains both operands and nothing outside their convex hull: its lower bound is the smaller lower bound (0 if one is open) and its upper bound the larger upper bound (none if one is open) -- an alternation never reports a depth that lies outside the range spanned by its branches, and keeps an upper bound exactly when both branches have one
+fn ob_c10_natural_union(k: u8, a: usize, b: usize, other_is_range: bool, k2: u8, a2: usize, b2: usize, x: usize) {
+    vassume!(k <= 2 && valid_bvr(k, a, b));
+    vassume!(!other_is_range || (k2 <= 2 && valid_bvr(k2, a2, b2)));
+    let r = mk_bvr(k, a, b);
+    let (lo1, hi1) = (r.lower().into_usize(), r.upper().into_usize());
+    let (u, lo2, hi2, in2) = if other_is_range {
+        let s = mk_bvr(k2, a2, b2);
+        (ops::disjunction(r, s), s.lower().into_usize(), s.upper().into_usize(), mem_bvr(&s, x as u128))
+    }
+    else {
+        (ops::disjunction(r, Depth::new(a2)), a2, Some(a2), x == a2)
+    };
+    vcover!(other_is_range && k == 2 && k2 == 2);
+    vcover!(!other_is_range && k == 1);
+    let lo = core::cmp::min(lo1, lo2);
+    let hi = match (hi1, hi2) {
+        (Some(p), Some(q)) => Some(core::cmp::max(p, q)),
+        _ => None,
+    };
+    assert!(!(mem_bvr(&r, x as u128) || in2) || mem_vr(&u, x as u128), "C10 a union contains both operands");
+    assert!(mem_vr(&u, x as u128) == (x >= lo && hi.map_or(true, |h| x <= h)), "C10/C09 a union is exactly the convex hull of its operands");
+}
+
 //@ob C10.natural.from_closed_and_open
 //@ props: C10 C19 C05
 //@ kind: complete
